@@ -2,7 +2,7 @@
 
    Clause table (statement of C16 -> what states it):
    | clause                                                      | stated by                                                   | status |
-   | stored record is read back identically from the patched object | C16_roundtrip_annotations, C16_roundtrip_pending, C16_status_store_reads_merge, C16_roundtrip_status_first_store | full for the annotation progress storage (every hash, prefix, v1/v2, verbosity, id, record, body, pending patch); status progress storage: C16_status_store_reads_merge (exact: the read-back is the RFC 7386 merge of the record into the old one, every path/id/record/body) and C16_roundtrip_status_first_store (identical for a first store of a flat null-free record); multi / smart progress storages and the diff-base storages: D-tied on the same inputs + round-trip monitor |
+   | stored record is read back identically from the patched object | C16_roundtrip_annotations, C16_roundtrip_pending, C16_status_store_reads_merge, C16_roundtrip_status_first_store | full for the annotation progress storage (every hash, prefix, v1/v2, verbosity, id, record, body, pending patch); status progress storage: C16_status_store_reads_merge (exact: the read-back is the RFC 7386 merge of the record into the old one, every path/id/record/body) and C16_roundtrip_status_first_store (identical for a first store of a flat null-free record); smart (default) progress storage: C16_roundtrip_smart, C16_smart_store_is_ann_store (full); other multi progress storages and the diff-base storages: D-tied on the same inputs + round-trip monitor |
    | can be purged completely                                    | C16_purged_completely, C16_purged_completely_status         | full for the annotation storage (fresh or any pending patch, all keys incl. v1 and -ofDRS); status storage: C16_purged_completely_status (fresh patch, every stanza path; pending patch: D-tied + monitor) |
    | never disturbs other handlers' records / other prefixes / user data | C16_isolation_annotations (store), C16_isolation_purge (purge, any pending patch), C16_isolation_touch (touch) | full for the annotation storage; status: monitor |
    | names are valid Kubernetes names                            | C16_suffix_shape, C16_len, C16_charset, C16_valid_names_partial / _refuted (F2), C16_v1_len_partial / _refuted (F12) | partial: exactly the two recorded findings are excluded |
@@ -229,3 +229,27 @@ Proof.
   - intros k v [E|[E|[E|[]]]]; injection E as <- <-; split; (reflexivity || discriminate).
   - split; vm_compute; reflexivity.
 Qed.
+
+(* The DEFAULT progress storage (SmartProgressStorage: annotations first, a read-only status stanza second): its patch is
+   the patch of its annotation storage (the status stanza is never written), and what is stored is read back through the
+   multi-storage's first-found read - every hash, prefix, v1/v2, verbosity, stanza path, id, record, body. *)
+Theorem C16_smart_store_is_ann_store : forall dg prefix v1 verbose tk field tf key record body p,
+  pstore dg (smart prefix v1 verbose tk field tf) key record body p
+  = pstore dg (PAnn prefix v1 verbose tk) key record body p.
+Proof. exact smart_store_is_ann_store. Qed.
+Print Assumptions C16_smart_store_is_ann_store.
+
+Theorem C16_roundtrip_smart : forall dg prefix v1 verbose tk field tf key record body patch,
+  pstore dg (smart prefix v1 verbose tk field tf) key record body (JObj []) = Ok patch ->
+  pfetch dg (smart prefix v1 verbose tk field tf) key (merge body patch)
+  = Ok (Some (JObj (if verbose then record else drop_nulls record))).
+Proof. exact smart_roundtrip. Qed.
+Print Assumptions C16_roundtrip_smart.
+
+Example C16_roundtrip_smart_nonvacuous :
+  exists patch,
+    pstore const_dg (smart "kopf.zalando.org" false false "touch-dummy" ["status"; "kopf"; "progress"] ["status"; "kopf"; "dummy"])%string
+           "h1"%string [("retries", JNum 1); ("message", JNull)]%string
+           (JObj [("status", JObj [("kopf", JObj [("progress", JObj [("h1", JObj [("retries", JNum 7)]%string)]%string)]%string)]%string)]%string) (JObj [])
+    = Ok patch.
+Proof. eexists. vm_compute. reflexivity. Qed.
